@@ -12,7 +12,6 @@
     The check functions at the end are evaluated by vm_compute inside generated Coq files
     (primitive floats do not extract with ExtrOcamlBasic); floats travel as hexadecimal
     literals, which Coq parses exactly. *)
-From Coq Require Export PrimFloat.
 From Coq Require Import Floats ZArith Bool.
 From Coq Require Uint63.
 Local Open Scope float_scope.
